@@ -417,17 +417,17 @@ func tablesDigest() string {
 }
 
 type stepEvent struct {
-	K      string         `json:"k"`
-	H      int            `json:"h"`
-	I      int            `json:"i"`
-	Op     map[string]any `json:"op"`
-	Panic  string         `json:"panic"`
-	Res    []qres         `json:"res"`  // one per repetition of a query; one element otherwise
-	Ok     bool           `json:"ok"`   // decode: err == nil
-	Sent   []string       `json:"sent"` // decode
+	K      string          `json:"k"`
+	H      int             `json:"h"`
+	I      int             `json:"i"`
+	Op     map[string]any  `json:"op"`
+	Panic  string          `json:"panic"`
+	Res    []qres          `json:"res"`  // one per repetition of a query; one element otherwise
+	Ok     bool            `json:"ok"`   // decode: err == nil
+	Sent   []string        `json:"sent"` // decode
 	Snaps  map[string]snap `json:"snaps"`
-	Tables string         `json:"tables"`
-	Twin   *qres          `json:"twin,omitempty"`
+	Tables string          `json:"tables"`
+	Twin   *qres           `json:"twin,omitempty"`
 }
 
 type prefix struct {
@@ -666,6 +666,7 @@ func cmdOrders(args []string) {
 	fs := flag.NewFlagSet("orders", flag.ExitOnError)
 	commonFlags(fs)
 	n := fs.Int("n", 3000, "vectors per family (near-duplicates are added)")
+	ord := fs.String("order", "fwd", "fwd|rev|shuf: processing order of this process")
 	fs.Parse(args)
 	rng := newRand(1200)
 	type item struct {
@@ -692,47 +693,40 @@ func cmdOrders(args []string) {
 		s2 := randValidV2(rng, lvl)
 		items = append(items, item{"v2", lvl, s2}, item{"v2", 'E', s2}, item{"v2", lvl, randEdit(rng, s2)})
 	}
-	run := func(order []int) []*decEvent {
-		out := make([]*decEvent, len(items))
-		for k, idx := range order {
-			it := items[idx]
-			ev := decodeFull(it.fam, it.lvl, it.s, true)
-			out[idx] = ev
-			if it.fam == "v3" && ev.Ok && k%3 == 0 {
-				// interleave report construction and export
-				if ev2 := buildRepEvent(it.lvl, "ja", it.s); ev2 != nil {
-					_ = ev2
-				}
-			}
+	// one processing order per PROCESS (a cache that is never evicted would make later passes
+	// of the same process agree with the first one): -order selects it, the orchestrator runs
+	// the command once per order in fresh processes and joins the results per vector
+	order := make([]int, len(items))
+	for i := range order {
+		order[i] = i
+	}
+	switch *ord {
+	case "rev":
+		for i := range order {
+			order[i] = len(items) - 1 - i
 		}
-		return out
+	case "shuf":
+		rng.Shuffle(len(order), func(i, j int) { order[i], order[j] = order[j], order[i] })
 	}
-	fwd := make([]int, len(items))
-	for i := range fwd {
-		fwd[i] = i
-	}
-	rev := make([]int, len(items))
-	for i := range rev {
-		rev[i] = len(items) - 1 - i
-	}
-	shuf := append([]int(nil), fwd...)
-	rng.Shuffle(len(shuf), func(i, j int) { shuf[i], shuf[j] = shuf[j], shuf[i] })
-	ra, rb, rc := run(fwd), run(rev), run(shuf)
 	rec := NewRecorder()
 	type oe struct {
 		K   string    `json:"k"`
+		Idx int       `json:"idx"`
 		Fam string    `json:"fam"`
 		Lvl string    `json:"lvl"`
 		S   string    `json:"s"`
-		A   *decEvent `json:"a"`
-		B   *decEvent `json:"b"`
-		C   *decEvent `json:"c"`
+		R   *decEvent `json:"r"`
 	}
-	for i, it := range items {
-		rec.Add(evBody(oe{"order", it.fam, string(it.lvl), asciiSafe(it.s), ra[i], rb[i], rc[i]}), "three processing orders")
+	for k, idx := range order {
+		it := items[idx]
+		ev := decodeFull(it.fam, it.lvl, it.s, true)
+		if it.fam == "v3" && ev.Ok && k%3 == 0 {
+			buildRepEvent(it.lvl, "ja", it.s) // interleave report construction
+		}
+		rec.Add(evBody(oe{"ord1", idx, it.fam, string(it.lvl), asciiSafe(it.s), ev}), "order "+*ord)
 	}
-	s := rec.Flush(flagOut, "orders", flagChunks)
-	s.Extra = map[string]any{"vectors": len(items), "orders": 3}
+	s := rec.Flush(flagOut, "orders-"+*ord, 1)
+	s.Extra = map[string]any{"vectors": len(items), "order": *ord}
 	printSummary(s)
 }
 
